@@ -49,6 +49,16 @@ func runELScenario(seed uint64, size int, t *Trace) {
 		n := []int{0, 1, maxLine / 2, maxLine, maxLine + 1, 2 * maxLine, 5, maxB / 2}[r.Intn(8)]
 		alphabet = append(alphabet, strings.Repeat(string(rune('a'+i)), n))
 	}
+	// lines whose bytes are not ASCII: multi-byte characters that straddle the per-line limit and bare
+	// continuation bytes (the limit is a limit in bytes, whatever the bytes mean)
+	for i, unit := range []string{"\u00e9", "\u20ac", "\U0001F600", "\x80", "\xbf\x80"} {
+		if r.Chance(50) {
+			n := []int{maxLine + 1, 2*maxLine + 3, maxLine + 2, maxLine, 7}[r.Intn(5)]
+			pad := strings.Repeat("x", (i+r.Intn(4))%4)
+			line := pad + strings.Repeat(unit, n/len(unit)+1)
+			alphabet = append(alphabet, line)
+		}
+	}
 	call := func(f func()) (panicked bool) {
 		defer func() {
 			if recover() != nil {
